@@ -136,6 +136,7 @@ func (w *World) mergeOnce(ins []*SegH, drops []*roaring.Bitmap, parts MergeParts
 		}
 		r.fail("merge-error", "Merge", "Merge failed without any fault injected (%s): %v", strings.Join(names, " + "), err)
 	}
+	w.lastK = sr.n
 	total := w.checkMaps(ins, drops, maps)
 	st, err := os.Stat(p)
 	if err != nil {
@@ -201,6 +202,9 @@ func lifecycle(r *RunCtx, parts MergeParts, wantSyn, wantVec bool) {
 		w.LargeDen = 25
 	}
 	abortable := c.Choose(3, "cfg.aborts") == 0
+	if parts.Thesauri && !abortable {
+		abortable = c.Bool("cfg.aborts.syn")
+	}
 
 	build := func() {
 		var spec *BatchSpec
@@ -275,6 +279,13 @@ func lifecycle(r *RunCtx, parts MergeParts, wantSyn, wantVec bool) {
 			}
 			if abortable && c.Choose(4, "merge.abortfirst") == 0 {
 				w.abortedMerge(ins, drops)
+				if parts.Thesauri {
+					// thesauri are a small part of a merge's writes: a few more cancelled
+					// attempts at other instants, so that some land inside that part
+					for k := c.Choose(4, "merge.abortmore"); k > 0; k-- {
+						w.abortedMerge(ins, drops)
+					}
+				}
 			}
 			h := w.mergeOnce(ins, drops, parts)
 			w.Add(h)
@@ -313,6 +324,30 @@ func lifecycle(r *RunCtx, parts MergeParts, wantSyn, wantVec bool) {
 // must still be correct.
 func (w *World) abortedMerge(ins []*SegH, drops []*roaring.Bitmap) {
 	r := w.r
+	// the cancelled merge is usually not the same merge as the one that follows:
+	// other order of the inputs, other deletions (what it leaves behind in pooled
+	// scratch objects then differs from what the next merge would compute itself)
+	if r.ch.Bool("abort.reorder") {
+		rev := make([]*SegH, len(ins))
+		rd := make([]*roaring.Bitmap, len(ins))
+		for i := range ins {
+			rev[len(ins)-1-i] = ins[i]
+			rd[len(ins)-1-i] = drops[i]
+		}
+		ins, drops = rev, rd
+	}
+	if len(ins) > 1 && r.ch.Bool("abort.subset") {
+		// ... or only some of the inputs
+		cut := 1 + r.ch.Choose(len(ins)-1, "abort.subsetn")
+		if r.ch.Bool("abort.subsettail") {
+			ins, drops = ins[cut:], drops[cut:]
+		} else {
+			ins, drops = ins[:cut], drops[:cut]
+		}
+	}
+	if r.ch.Bool("abort.nodrops") {
+		drops = make([]*roaring.Bitmap, len(ins))
+	}
 	segs := make([]segment.Segment, len(ins))
 	for i, h := range ins {
 		segs[i] = h.Seg
@@ -324,6 +359,10 @@ func (w *World) abortedMerge(ins []*SegH, drops []*roaring.Bitmap) {
 		// the stored-field section alone makes dozens of writes: reach the sections
 		// written after it (postings, thesauri, vectors) as well
 		k = r.ch.Choose(600, "abort.latek")
+	}
+	if w.lastK > 0 && r.ch.Bool("abort.within") {
+		// somewhere within the number of writes the last complete merge made
+		k = r.ch.Choose(w.lastK+1, "abort.withink")
 	}
 	closed := false
 	sr := &statsReporter{cb: func(n int) {
